@@ -28,15 +28,15 @@ import (
 )
 
 type FuncContract struct {
-	Pkg      string // relative package path
-	Key      string // full key "<relpkg>:<name>"
-	Props    []string
-	Clauses  []*Clause
-	File     string
-	Line     int
-	Lets     []*Clause
-	Options  map[string]string
-	Ghosts   []*GhostClause
+	Pkg     string // relative package path
+	Key     string // full key "<relpkg>:<name>"
+	Props   []string
+	Clauses []*Clause
+	File    string
+	Line    int
+	Lets    []*Clause
+	Options map[string]string
+	Ghosts  []*GhostClause
 }
 
 // GhostClause: ghost state attached to a session key. Whenever the function
@@ -398,7 +398,7 @@ func parseExpr(s string) (*Node, error) {
 }
 
 func (p *lexer) peek() tok { return p.toks[p.pos] }
-func (p *lexer) next() tok  { t := p.toks[p.pos]; p.pos++; return t }
+func (p *lexer) next() tok { t := p.toks[p.pos]; p.pos++; return t }
 func (p *lexer) isOp(s string) bool {
 	t := p.peek()
 	return t.k == "op" && t.s == s
